@@ -26,7 +26,12 @@ EXPLANATION = (
     "database reload in PseudonymManager; the waiting area is bounded; content is attached only under a hash match (decided "
     "per None-ness case of Token.__init__ by partial evaluation); wire chunk size equals the token struct size and every "
     "chunk is offered to gather_token unconditionally; verify/get_root_path check every step's signature; token equality "
-    "covers the signature. Permutations are not enumerated."
+    "covers the signature; a walk that leaves its loop because the step budget is used up returns a failure verdict (the code behind the loop is "
+    "run on the concrete exit state steps == maxdepth; refute-only); on every returning path of serialize_public the emitted sequence puts a token's parent before the token "
+    "(order abstract interpretation: iteration of self.elements is parents-first because _append stores a token only once it is chained, "
+    "a walk along previous_token_hash is child-first when collected by appending and parents-first when collected by prepending, "
+    "reversed / [::-1] / reverse() flip, join / map / comprehensions / copies and followed helper generators keep the order), so a reload "
+    "never parks more tokens than the bounded waiting area holds. Permutations are not enumerated."
 )
 
 TR = "ipv8/attestation/tokentree/tree.py"
@@ -251,6 +256,110 @@ def _table_key(e: ast.AST | None, table: str) -> ast.AST | None:
     return None
 
 
+def _table_get(e: ast.AST | None, table: str) -> tuple[ast.AST, ast.AST | None] | None:
+    """(K, D) of `table.get(K)` / `table.get(K, D)` (already expanded expression; D is None when the default is not given)"""
+    if isinstance(e, ast.Call) and chain(e.func) == table + ".get" and 1 <= len(e.args) <= 2 and not e.keywords and not any(isinstance(a, ast.Starred) for a in e.args):
+        return e.args[0], (e.args[1] if len(e.args) == 2 else None)
+    return None
+
+
+_SENTINEL_TAKERS = ("get", "pop", "getattr", "next", "setdefault")
+
+
+def _sentinel_uses_ok(scope: ast.AST, is_ref) -> bool:
+    """
+    Every read of the sentinel inside `scope` is an operand of an identity test (`is` / `is not`) or the default argument of a
+    lookup (`.get(k, S)`, `.pop(k, S)`, `getattr(o, n, S)`, `next(it, S)`): it is never stored into a table, never returned and
+    never handed to other code, so no table can hold it as a value.
+    """
+    for n in ast.walk(scope):
+        if not is_ref(n) or not isinstance(getattr(n, "ctx", None), ast.Load):
+            continue
+        p = parent(n)
+        if isinstance(p, ast.Compare) and all(isinstance(o, (ast.Is, ast.IsNot)) for o in p.ops):
+            continue
+        if isinstance(p, ast.Call) and p.args and p.args[-1] is n and len(p.args) >= 2 and not p.keywords and \
+                ((isinstance(p.func, ast.Attribute) and p.func.attr in ("get", "pop")) or (isinstance(p.func, ast.Name) and p.func.id in ("getattr", "next"))):
+            continue
+        return False
+    return True
+
+
+def _fresh_object(m, v: ast.AST | None) -> bool:
+    """v creates a new object nothing else can be identical to: `object()`, or an instance of a class of this module made without arguments"""
+    v = strip_cast(v) if v is not None else None
+    if not (isinstance(v, ast.Call) and not v.args and not v.keywords and isinstance(v.func, ast.Name)):
+        return False
+    return v.func.id == "object" or (m is not None and v.func.id in m.classes)
+
+
+def _is_sentinel(fi: FuncInfo, d: ast.AST) -> bool:
+    """
+    d names a private marker object: bound exactly once (module level, class body or a local of this function) to a freshly created
+    object and used for nothing but identity tests and lookup defaults.  `T.get(k, d) is d` then holds exactly when k is missing from T.
+    """
+    d = strip_cast(d)
+    m = fi.module
+    if isinstance(d, ast.Name):
+        if is_param(fi, d.id):
+            return False
+        ds = local_defs(fi, d.id)
+        if ds:
+            return len(ds) == 1 and ds[0][2] is None and _fresh_object(m, ds[0][1]) and \
+                _sentinel_uses_ok(fi.node, lambda n: isinstance(n, ast.Name) and n.id == d.id)
+        v = m.constants.get(d.id) if m is not None else None
+        if v is None or not _fresh_object(m, v):
+            return False
+        name_stores = sum(1 for x in ast.walk(m.tree) if isinstance(x, ast.Name) and x.id == d.id and isinstance(x.ctx, (ast.Store, ast.Del)))
+        rebinds = any(isinstance(x, (ast.Global, ast.Nonlocal)) and d.id in x.names for x in ast.walk(m.tree))
+        shadowed = any(isinstance(x, ast.arg) and x.arg == d.id for x in ast.walk(m.tree))
+        return name_stores == 1 and not rebinds and not shadowed and _sentinel_uses_ok(m.tree, lambda n: isinstance(n, ast.Name) and n.id == d.id)
+    if isinstance(d, ast.Attribute) and isinstance(d.value, ast.Name) and fi.cls is not None and m is not None and \
+            (d.value.id in ("self", "cls") or d.value.id in {c.name for c in fi.cls.mro()}):
+        v = fi.cls.lookup_attr(d.attr)
+        if v is None or not _fresh_object(m, v):
+            return False
+        attr_stores = sum(1 for x in ast.walk(m.tree) if isinstance(x, ast.Attribute) and x.attr == d.attr and isinstance(x.ctx, (ast.Store, ast.Del)))
+        class_stores = sum(1 for x in ast.walk(m.tree) if isinstance(x, ast.Name) and x.id == d.attr and isinstance(x.ctx, (ast.Store, ast.Del)))
+        return attr_stores == 0 and class_stores == 1 and _sentinel_uses_ok(m.tree, lambda n: (isinstance(n, ast.Attribute) and n.attr == d.attr) or
+                                                                            (isinstance(n, ast.Name) and n.id == d.attr))
+    return False
+
+
+def _absent_test(fi: FuncInfo, f: Fact, table: str) -> tuple[ast.AST, bool] | None:
+    """(K, absent-when-the-fact-holds) when the identity fact f compares `table.get(K, D)` with its own default D, D being None (the table
+    holds no None) or a private marker object: the lookup yields D exactly when K is missing"""
+    if f.op != "is" or f.right is None:
+        return None
+    def follow(e: ast.AST) -> ast.AST:
+        e = strip_cast(e)
+        for _ in range(4):
+            if not isinstance(e, ast.Name):
+                break
+            v = _def_value(fi, e)
+            if v is None or _fresh_object(fi.module, v):
+                break
+            e = strip_cast(v)
+        return e
+    for a, b in ((f.left, f.right), (f.right, f.left)):
+        c = follow(a)                                # the call as written: its default argument is compared by name, not by value
+        if isinstance(c, ast.Call) and isinstance(c.func, ast.Attribute) and c.func.attr == "get" and chain(c.func) != table + ".get" and \
+                chain(_expand(fi, c.func.value)) == table:
+            c = ast.copy_location(ast.Call(func=ast.parse(table + ".get", mode="eval").body, args=c.args, keywords=c.keywords), c)
+        g = _table_get(c, table)
+        if g is None:
+            continue
+        k, dflt = _expand(fi, g[0]), (strip_cast(g[1]) if g[1] is not None else None)
+        b = follow(b)
+        if _is_none(b):
+            if dflt is None or _is_none(dflt) or _is_none(follow(dflt)):
+                return k, f.pos
+            continue
+        if dflt is not None and isinstance(dflt, (ast.Name, ast.Attribute)) and norm(b) == norm(dflt) and _is_sentinel(fi, dflt):
+            return k, f.pos
+    return None
+
+
 def _is_table(e: ast.AST, table: str) -> bool:
     return chain(e) in (table, table + ".keys()")
 
@@ -310,6 +419,10 @@ def _membership(fi: FuncInfo, f: Fact, table: str = "self.elements") -> tuple[st
     spelled as a lookup whose KeyError is caught)."""
     if f.op == "in" and _is_table(_expand(fi, f.right), table):
         return _x(fi, f.left), f.pos
+    if f.op == "is":
+        g = _absent_test(fi, f, table)
+        if g is not None:
+            return norm(g[0]), not g[1]
     if f.op == "is" and _is_none(f.right):
         k = _table_key(_expand(fi, f.left), table) or _eafp_get(fi, f.left, table)
         if k is not None:
@@ -3149,6 +3262,9 @@ def rule_verify_before_keep(ctx: Ctx) -> None:
                              any(isinstance(x, ast.Subscript) and chain(x.value) == "self.elements" and _x(fi, x.slice) == f"{tok}.get_hash()" for b in t.body for x in ast.walk(b))
                              for t in ast.walk(fi.node)):
             raise AnalysisError("undecided: gather_token decides `already contained` by catching the KeyError of a lookup among other statements")
+        if not fresh and any(isinstance(c.func, ast.Attribute) and c.func.attr == "get" and len(c.args) == 2 and not _is_none(c.args[1]) and not c.keywords
+                             and chain(_expand(fi, c.func.value)) == "self.elements" and _x(fi, c.args[0]) == f"{tok}.get_hash()" for c in calls(fi)):
+            raise AnalysisError("undecided: gather_token decides `already contained` by comparing a lookup with a default value that is not a recognised marker object")
         ctx.check(fresh, "verify-before-keep", fi, s, "token appended only if not contained yet", "a duplicate token replaces the contained one (and its content)",
                   [str(f) for f in fs])
     # bounded waiting area: the oldest waiting token is dropped only when the area exceeds its maximum size
@@ -3793,12 +3909,192 @@ def _is_success(value: ast.AST | None) -> bool:
     return True
 
 
+class _NoEval(Exception):
+    """the expression is not made of integers, comparisons and boolean connectives only"""
+
+
+def _mini_eval(e: ast.AST, env: dict):
+    """value of a comparison / boolean / small integer expression over the integer variables of env (nothing else is evaluated)"""
+    e = strip_cast(e)
+    if isinstance(e, ast.Constant) and (e.value is None or isinstance(e.value, (bool, int))):
+        return e.value
+    if isinstance(e, ast.Name) and e.id in env:
+        return env[e.id]
+    if isinstance(e, ast.UnaryOp) and isinstance(e.op, ast.Not):
+        return not _mini_eval(e.operand, env)
+    if isinstance(e, ast.UnaryOp) and isinstance(e.op, ast.USub):
+        v = _mini_eval(e.operand, env)
+        if isinstance(v, int) and not isinstance(v, bool):
+            return -v
+        raise _NoEval
+    if isinstance(e, ast.BoolOp):
+        v = None
+        for x in e.values:
+            v = _mini_eval(x, env)
+            if bool(v) != isinstance(e.op, ast.And):
+                return v
+        return v
+    if isinstance(e, ast.IfExp):
+        return _mini_eval(e.body if _mini_eval(e.test, env) else e.orelse, env)
+    if isinstance(e, ast.BinOp) and isinstance(e.op, (ast.Add, ast.Sub)):
+        l, r = _mini_eval(e.left, env), _mini_eval(e.right, env)
+        if all(isinstance(x, int) and not isinstance(x, bool) for x in (l, r)):
+            return l + r if isinstance(e.op, ast.Add) else l - r
+        raise _NoEval
+    if isinstance(e, ast.Compare):
+        left = _mini_eval(e.left, env)
+        for op, c in zip(e.ops, e.comparators):
+            right = _mini_eval(c, env)
+            if isinstance(op, (ast.Is, ast.IsNot)):
+                if left is not None and right is not None:
+                    raise _NoEval
+                r = (left is right) == isinstance(op, ast.Is)
+            elif isinstance(op, (ast.Eq, ast.NotEq)):
+                r = (left == right) == isinstance(op, ast.Eq)
+            elif left is None or right is None:
+                raise _NoEval
+            elif isinstance(op, ast.Lt):
+                r = left < right
+            elif isinstance(op, ast.LtE):
+                r = left <= right
+            elif isinstance(op, ast.Gt):
+                r = left > right
+            elif isinstance(op, ast.GtE):
+                r = left >= right
+            else:
+                raise _NoEval
+            if not r:
+                return False
+            left = right
+        return True
+    if isinstance(e, ast.Call) and isinstance(e.func, ast.Name) and e.func.id == "bool" and len(e.args) == 1 and not e.keywords:
+        return bool(_mini_eval(e.args[0], env))
+    raise _NoEval
+
+
+def _surely_nonempty(v: FuncInfo, e: ast.AST) -> bool:
+    """e is a local list that starts as a non-empty list literal and is only ever extended"""
+    e = strip_cast(e)
+    if isinstance(e, (ast.List, ast.Tuple)):
+        return bool(e.elts) and not all(isinstance(x, ast.Starred) for x in e.elts)
+    if not isinstance(e, ast.Name) or is_param(v, e.id):
+        return False
+    ds = local_defs(v, e.id)
+    if not ds:
+        return False
+    for st, val, k in ds:
+        if isinstance(st, ast.AugAssign) and isinstance(st.op, ast.Add):
+            continue
+        if val is None or k is not None or not (isinstance(strip_cast(val), (ast.List, ast.Tuple)) and _surely_nonempty(v, val)):
+            return False
+    for x in walk_no_nested(v.node):
+        if isinstance(x, ast.Attribute) and isinstance(x.value, ast.Name) and x.value.id == e.id and x.attr in ("pop", "clear", "remove", "__delitem__", "popleft"):
+            return False
+        if isinstance(x, (ast.Delete,)) and any(e.id in {y.id for y in ast.walk(t) if isinstance(y, ast.Name)} for t in x.targets):
+            return False
+    return True
+
+
+def _budget_exit(ctx: Ctx, v: FuncInfo, name: str) -> None:
+    """
+    A walk bounded by a step budget (`while maxdepth == -1 or maxdepth > steps`) that runs out of budget leaves its loop with the token reached
+    last not signature-checked and the genesis pointer not reached: what is returned then must be a failure verdict.  Decided by running the
+    code behind the loop on the concrete state the loop is left in (steps == maxdepth == K, reached by any valid chain of more than K tokens);
+    a concrete run can only refute - shapes that cannot be run this way are left to the other clauses.
+    """
+    fn = v.node
+    bounds = [p for p in v.params()[2:] if not local_defs(v, p)]
+    for i, loop in enumerate(fn.body):
+        if not isinstance(loop, ast.While) or loop.orelse:
+            continue
+        names = {x.id for x in ast.walk(loop.test) if isinstance(x, ast.Name)}
+        ms = [b for b in bounds if b in names]
+        ss = [x for x in names if x not in ms and not is_param(v, x)]
+        if len(ms) != 1 or len(ss) != 1 or len(names) != 2:
+            continue
+        m, s = ms[0], ss[0]
+        ds = local_defs(v, s)
+        init = [d for d in ds if isinstance(d[0], (ast.Assign, ast.AnnAssign)) and d[1] is not None and d[2] is None and const_value(d[1]) == 0 and
+                any(d[0] is st for st in fn.body[:i])]
+        incs = [d[0] for d in ds if any(d[0] is st for st in loop.body) and (
+            (isinstance(d[0], ast.AugAssign) and isinstance(d[0].op, ast.Add) and const_value(d[0].value) == 1) or
+            (isinstance(d[0], ast.Assign) and norm(d[0].value) in (f"{s} + 1", f"1 + {s}")))]
+        if len(ds) != 2 or len(init) != 1 or len(incs) != 1 or any(isinstance(x, ast.Continue) for x in ast.walk(loop)):
+            continue
+        K = 3
+        try:
+            shape = all(_mini_eval(loop.test, {s: j, m: K}) for j in range(K)) and not _mini_eval(loop.test, {s: K, m: K})
+        except _NoEval:
+            continue
+        if not shape:
+            continue
+        env: dict = {s: K, m: K}
+        sym: dict[str, ast.AST] = {}
+        todo = list(fn.body[i + 1:])
+        verdict = None
+        why = None
+        steps_left = 50
+        while todo and steps_left:
+            steps_left -= 1
+            st = todo.pop(0)
+            if isinstance(st, ast.If):
+                try:
+                    todo = list(st.body if _mini_eval(st.test, env) else st.orelse) + todo
+                except _NoEval:
+                    break
+            elif isinstance(st, ast.Expr) and isinstance(st.value, ast.Call) and (chain(st.value.func) or "").startswith(("self._logger.", "self.logger.", "logging.")):
+                continue
+            elif isinstance(st, ast.Assign) and len(st.targets) == 1 and isinstance(st.targets[0], ast.Name) and st.targets[0].id not in (s, m):
+                try:
+                    env[st.targets[0].id] = _mini_eval(st.value, env)
+                    sym.pop(st.targets[0].id, None)
+                except _NoEval:
+                    x = strip_cast(st.value)
+                    try:
+                        while isinstance(x, ast.IfExp):
+                            x = strip_cast(x.body if _mini_eval(x.test, env) else x.orelse)
+                    except _NoEval:
+                        break
+                    env.pop(st.targets[0].id, None)
+                    sym[st.targets[0].id] = x
+            elif isinstance(st, ast.Return):
+                x = strip_cast(st.value) if st.value is not None else ast.Constant(None)
+                try:
+                    while isinstance(x, ast.IfExp):
+                        x = strip_cast(x.body if _mini_eval(x.test, env) else x.orelse)
+                    if isinstance(x, ast.Name) and x.id in sym:
+                        x = sym[x.id]
+                    try:
+                        verdict = bool(_mini_eval(x, env))
+                    except _NoEval:
+                        if isinstance(x, (ast.List, ast.Tuple, ast.Set, ast.Dict)) and not (x.keys if isinstance(x, ast.Dict) else x.elts):
+                            verdict = False
+                        elif _surely_nonempty(v, x) and not (isinstance(x, ast.Name) and (x.id in env or x.id in sym)):
+                            verdict = True
+                    why = st
+                except _NoEval:
+                    pass
+                break
+            else:
+                break
+        if verdict is None:
+            ctx.note(f"{name}: what is returned when the step budget runs out was not decided by a concrete run")
+            continue
+        ctx.check(not verdict, "wire-chunks", v, why, f"{name}: a walk that runs out of its step budget ({s} == {m}) reports failure",
+                  f"{name} reports success (`{norm(why)[:60]}`) when the walk leaves its loop because the step budget is used up ({s} == {m}): the token reached last "
+                  "has not been signature-checked and the genesis pointer has not been reached, so a chain of more than "
+                  f"{m} tokens is accepted / returned as a root path without ending at the root")
+
+
 def _walk_to_root(ctx: Ctx, f2: FuncInfo, name: str) -> None:
     """verify / get_root_path: every token on the walk is signature-checked; the walk succeeds only at the genesis hash."""
-    results = [r for r in (_walk_unit(ctx, v) for v in _walk_units(ctx, f2)) if r is not None]
+    units = _walk_units(ctx, f2)
+    results = [r for r in (_walk_unit(ctx, v) for v in units) if r is not None]
     ok = bool(results) and all(a and b for a, b in results)
     ctx.check(ok, "wire-chunks", f2, f2.node, f"{name}: each step's signature is checked; the walk ends only at the genesis hash",
               f"{name} accepts a path without checking every signature or without reaching the genesis")
+    for v in units:
+        _budget_exit(ctx, v, name)
 
 
 def _digest_sizes() -> dict[str, int]:
@@ -3979,8 +4275,85 @@ def _fold_derived(repo, fi: FuncInfo, e: ast.AST | None) -> ast.AST | None:
     return ast.fix_missing_locations(F().visit(_cl(e)))
 
 
+def _format_pieces(e: ast.AST | None, depth: int = 0) -> list | None:
+    """
+    A string expression as the sequence of its pieces, each a constant `str` or `("val", text)` for the decimal rendering of an integer
+    expression: literals, f-strings, `a + b`, `"..%d.." % x`, `"..{}..".format(x)`, `str(x)`, `"".join([...])`, `piece * n`.  None when the
+    expression is not understood completely.
+    """
+    if e is None or depth > 8:
+        return None
+    e = strip_cast(e)
+    if isinstance(e, ast.Constant):
+        return [e.value] if isinstance(e.value, str) else None
+    if isinstance(e, ast.JoinedStr):
+        out: list = []
+        for x in e.values:
+            if isinstance(x, ast.Constant) and isinstance(x.value, str):
+                out.append(x.value)
+            elif isinstance(x, ast.FormattedValue) and x.conversion == -1 and \
+                    (x.format_spec is None or (isinstance(x.format_spec, ast.JoinedStr) and [getattr(v, "value", None) for v in x.format_spec.values] == ["d"])):
+                out.append(("val", norm(x.value)))
+            else:
+                return None
+        return out
+    if isinstance(e, ast.BinOp) and isinstance(e.op, ast.Add):
+        l, r = _format_pieces(e.left, depth + 1), _format_pieces(e.right, depth + 1)
+        return None if l is None or r is None else l + r
+    if isinstance(e, ast.BinOp) and isinstance(e.op, ast.Mult):
+        for s, n in ((e.left, e.right), (e.right, e.left)):
+            k = const_value(n)
+            if isinstance(k, int) and not isinstance(k, bool) and 0 <= k <= 16:
+                p = _format_pieces(s, depth + 1)
+                return None if p is None else p * k
+        return None
+    if isinstance(e, ast.BinOp) and isinstance(e.op, ast.Mod) and isinstance(e.left, ast.Constant) and isinstance(e.left.value, str):
+        x = e.right.elts[0] if isinstance(e.right, ast.Tuple) and len(e.right.elts) == 1 else e.right
+        if isinstance(x, (ast.Tuple, ast.Dict)) or e.left.value.count("%") != 1:
+            return None
+        for spec in ("%d", "%i", "%s"):
+            if spec in e.left.value:
+                pre, suf = e.left.value.split(spec)
+                return [pre, ("val", norm(x)), suf]
+        return None
+    if isinstance(e, ast.Call) and isinstance(e.func, ast.Attribute) and e.func.attr == "format" and isinstance(e.func.value, ast.Constant) \
+            and isinstance(e.func.value.value, str) and len(e.args) == 1 and not e.keywords and not isinstance(e.args[0], ast.Starred):
+        t = e.func.value.value
+        if t.count("{") != 1 or t.count("}") != 1:
+            return None
+        for spec in ("{}", "{0}", "{:d}", "{0:d}"):
+            if spec in t:
+                pre, suf = t.split(spec)
+                return [pre, ("val", norm(e.args[0])), suf]
+        return None
+    if isinstance(e, ast.Call) and chain(e.func) in ("str", "repr") and len(e.args) == 1 and not e.keywords and not isinstance(e.args[0], ast.Starred):
+        return [("val", norm(e.args[0]))]
+    if isinstance(e, ast.Call) and isinstance(e.func, ast.Attribute) and e.func.attr == "join" and isinstance(e.func.value, ast.Constant) and e.func.value.value == "" \
+            and len(e.args) == 1 and not e.keywords and isinstance(e.args[0], (ast.Tuple, ast.List)) and not any(isinstance(x, ast.Starred) for x in e.args[0].elts):
+        out = []
+        for x in e.args[0].elts:
+            p = _format_pieces(x, depth + 1)
+            if p is None:
+                return None
+            out += p
+        return out
+    return None
+
+
 def _format_parts(e: ast.AST | None) -> tuple[str, str, str] | None:
     """(constant prefix, text of the interpolated expression, constant suffix) of a struct format built from one value"""
+    pieces = _format_pieces(e)
+    if pieces is not None:
+        merged: list = []
+        for p in pieces:
+            if isinstance(p, str) and merged and isinstance(merged[-1], str):
+                merged[-1] += p
+            elif p != "":
+                merged.append(p)
+        vals = [i for i, p in enumerate(merged) if not isinstance(p, str)]
+        if len(vals) == 1:
+            i = vals[0]                          # adjacent constants are merged: at most one piece on either side of the value
+            return "".join(merged[:i]), merged[i][1], "".join(merged[i + 1:])
     if isinstance(e, ast.JoinedStr) and len(e.values) == 3 and isinstance(e.values[0], ast.Constant) and isinstance(e.values[1], ast.FormattedValue) \
             and isinstance(e.values[2], ast.Constant) and e.values[1].format_spec is None and e.values[1].conversion == -1:
         return e.values[0].value, norm(e.values[1].value), e.values[2].value
@@ -4329,6 +4702,576 @@ def rule_signed_object(ctx: Ctx) -> None:
               "from_database_tuple does not check reloaded content against the content hash")
 
 
+# ------------------------------------------------------------------------------------ dump order (parents first)
+# Abstract values for "a sequence of tokens (or of their serialised chunks)":
+#   ("empty",)                        nothing
+#   ("one", T)                        exactly the token named T
+#   ("chain", O, B, incl)             ancestors of token B that are stored in the tree (B itself at the child end when incl), ordered
+#                                     O = "CF" (child first: B, parent(B), parent(parent(B)) ..) or "PF" (parents first)
+#   ("stored", O)                     every token of self.elements in insertion order (PF: _append stores a token only once its parent is
+#                                     the genesis hash or contained, so a parent is always inserted before its children) or reversed (CF)
+_EMPTY = ("empty",)
+_SEQ_COPIES = ("list", "tuple", "iter", "bytes", "bytearray", "deque", "collections.deque", "memoryview")
+_SEQ_READERS = ("reversed", "len", "enumerate", "map", "filter", "bool", "any", "all", "print", *_SEQ_COPIES)
+
+
+def _undecided_order(fi: FuncInfo, what: str):
+    return AnalysisError(f"undecided: dump order of {fi.qualname}: {what}")
+
+
+def _flip(v: tuple) -> tuple:
+    if v[0] == "chain":
+        return ("chain", "PF" if v[1] == "CF" else "CF", v[2], v[3])
+    if v[0] == "stored":
+        return ("stored", "PF" if v[1] == "CF" else "CF")
+    return v
+
+
+def _innermost_loop(node: ast.AST, stop: ast.AST):
+    """the innermost while / for statement whose body or test evaluates node"""
+    prev = node
+    for a in ancestors(node):
+        if a is stop:
+            return None
+        if isinstance(a, (ast.For, ast.AsyncFor)) and prev is not a.iter and prev is not a.target and not any(prev is s for s in a.orelse):
+            return a
+        if isinstance(a, ast.While) and not any(prev is s for s in a.orelse):
+            return a
+        if isinstance(a, (ast.FunctionDef, ast.AsyncFunctionDef, ast.Lambda)):
+            return None
+        prev = a
+    return None
+
+
+class _OrderEval:
+    """ORDER abstract interpretation of the expressions of one function (see the value domain above); whatever it does not understand
+    completely is reported as undecided, never as a verdict."""
+
+    def __init__(self, ctx: Ctx, fi: FuncInfo, bind: dict[str, str] | None = None, seqs: dict[str, list] | None = None, depth: int = 0) -> None:
+        self.ctx, self.fi, self.bind, self.seqs, self.depth = ctx, fi, bind or {}, seqs or {}, depth
+        self.cfg = ctx.cfg(fi)
+
+    # ---------------------------------------------------------------- tokens
+    def tok(self, e: ast.AST) -> str:
+        x = _expand(self.fi, e)
+        if isinstance(x, ast.Name) and x.id in self.bind and not [d for d in local_defs(self.fi, x.id) if _innermost_loop(d[0], self.fi.node) is None and
+                                                                 not isinstance(d[0], _LOOPS)]:
+            return self.bind[x.id]
+        return norm(x)
+
+    def elem(self, e: ast.AST) -> ast.AST:
+        """the token expression X of an emitted element `X.get_plaintext_signed()` / `bytes(..)` of it / X itself"""
+        e = strip_cast(e)
+        while isinstance(e, ast.Call) and isinstance(e.func, ast.Name) and e.func.id in ("bytes", "bytearray", "memoryview") and len(e.args) == 1 and not e.keywords:
+            e = strip_cast(e.args[0])
+        if isinstance(e, ast.Call) and isinstance(e.func, ast.Attribute) and e.func.attr == "get_plaintext_signed" and not e.args and not e.keywords:
+            return strip_cast(e.func.value)
+        return e
+
+    # ---------------------------------------------------------------- values
+    def concat(self, a: tuple, b: tuple, at: ast.AST) -> tuple:
+        if a[0] == "empty":
+            return b
+        if b[0] == "empty":
+            return a
+        if a[0] == "one" and b[0] == "chain" and b[1] == "CF" and not b[3] and b[2] == a[1]:
+            return ("chain", "CF", b[2], True)
+        if a[0] == "chain" and b[0] == "one" and a[1] == "PF" and not a[3] and a[2] == b[1]:
+            return ("chain", "PF", a[2], True)
+        if a[0] == "one" and b[0] == "chain" and b[1] == "PF" and b[2] == a[1]:
+            return ("mixed", f"token {a[1]} in front of its own ancestors (`{norm(at)[:60]}`)")
+        if "mixed" in (a[0], b[0]):
+            return a if a[0] == "mixed" else b
+        raise _undecided_order(self.fi, f"`{norm(at)[:60]}` joins {a} and {b}")
+
+    def product(self, xs: list, ys: list, at: ast.AST) -> list:
+        out = []
+        for a in xs:
+            for b in ys:
+                v = self.concat(a, b, at)
+                if v not in out:
+                    out.append(v)
+        return out
+
+    def ev(self, e: ast.AST | None, d: int = 0) -> list:
+        fi = self.fi
+        if e is None or d > 14:
+            raise _undecided_order(fi, "expression too deep")
+        e = strip_cast(e)
+        if isinstance(e, ast.Constant):
+            if e.value in (b"", "") and isinstance(e.value, (bytes, str)):
+                return [_EMPTY]
+            raise _undecided_order(fi, f"constant `{norm(e)[:40]}` in the emitted sequence")
+        if isinstance(e, (ast.List, ast.Tuple)):
+            acc = [_EMPTY]
+            for x in e.elts:
+                part = self.ev(x.value, d + 1) if isinstance(x, ast.Starred) else [("one", self.tok(self.elem(x)))]
+                acc = self.product(acc, part, e)
+            return acc
+        if isinstance(e, ast.NamedExpr):
+            return self.ev(e.value, d + 1)
+        if isinstance(e, ast.IfExp):
+            out = self.ev(e.body, d + 1)
+            return out + [v for v in self.ev(e.orelse, d + 1) if v not in out]
+        if isinstance(e, ast.BinOp) and isinstance(e.op, ast.Add):
+            return self.product(self.ev(e.left, d + 1), self.ev(e.right, d + 1), e)
+        if isinstance(e, ast.Name):
+            return self.name(e, d)
+        if isinstance(e, (ast.ListComp, ast.GeneratorExp)):
+            if len(e.generators) != 1 or e.generators[0].is_async:
+                raise _undecided_order(fi, f"`{norm(e)[:60]}` iterates more than one sequence")
+            g = e.generators[0]
+            tnames = {x.id for x in ast.walk(g.target) if isinstance(x, ast.Name)}
+            if not tnames & {x.id for x in ast.walk(e.elt) if isinstance(x, ast.Name)}:
+                raise _undecided_order(fi, f"`{norm(e)[:60]}` does not emit the element it iterates")
+            return self.ev(g.iter, d + 1)
+        if isinstance(e, ast.Subscript) and isinstance(e.slice, ast.Slice):
+            s = e.slice
+            if s.lower is None and s.upper is None and (s.step is None or const_value(s.step) in (1, -1)):
+                vals = self.ev(e.value, d + 1)
+                return [_flip(v) for v in vals] if s.step is not None and const_value(s.step) == -1 else vals
+            raise _undecided_order(fi, f"slice `{norm(e)[:60]}`")
+        if isinstance(e, ast.Attribute) and chain(_expand(fi, e)) == "self.elements":
+            return [("stored", "PF")]
+        if isinstance(e, ast.Call):
+            return self.call(e, d)
+        raise _undecided_order(fi, f"`{norm(e)[:60]}` is not understood")
+
+    def call(self, e: ast.Call, d: int) -> list:
+        fi = self.fi
+        f = e.func
+        c = chain(f) or ""
+        plain = not e.keywords and not any(isinstance(a, ast.Starred) for a in e.args)
+        if isinstance(f, ast.Attribute) and f.attr == "get_plaintext_signed" and not e.args and plain:
+            return [("one", self.tok(f.value))]
+        if isinstance(f, ast.Attribute) and f.attr in ("values", "keys", "items") and not e.args and plain and chain(_expand(fi, f.value)) == "self.elements":
+            return [("stored", "PF")]
+        if isinstance(f, ast.Attribute) and f.attr == "join" and len(e.args) == 1 and plain:
+            r = strip_cast(f.value)
+            if (isinstance(r, ast.Constant) and r.value in (b"", "")) or (isinstance(r, ast.Call) and chain(r.func) in ("bytes", "str", "bytearray") and not r.args and not r.keywords):
+                return self.ev(e.args[0], d + 1)
+            raise _undecided_order(fi, f"`{norm(e)[:60]}` joins with a separator")
+        if isinstance(f, ast.Attribute) and f.attr == "copy" and not e.args and plain:
+            return self.ev(f.value, d + 1)
+        shadow = {x for x in ("list", "tuple", "iter", "bytes", "bytearray", "deque", "reversed", "map", "filter", "memoryview") if local_defs(fi, x) or is_param(fi, x)}
+        if c in _SEQ_COPIES and c not in shadow and plain and len(e.args) <= 1:
+            return self.ev(e.args[0], d + 1) if e.args else [_EMPTY]
+        if c == "reversed" and c not in shadow and plain and len(e.args) == 1:
+            return [_flip(v) for v in self.ev(e.args[0], d + 1)]
+        if c in ("map", "filter") and c not in shadow and plain and len(e.args) == 2:
+            return self.ev(e.args[1], d + 1)
+        if isinstance(f, ast.Attribute) and f.attr == "getvalue" and not e.args and plain and isinstance(strip_cast(f.value), ast.Name):
+            return self.ev(f.value, d + 1)
+        if c in ("BytesIO", "io.BytesIO") and plain and len(e.args) <= 1:
+            return self.ev(e.args[0], d + 1) if e.args else [_EMPTY]
+        if c in ("reduce", "functools.reduce") and plain and len(e.args) == 3 and isinstance(e.args[0], ast.Lambda) and len(e.args[0].args.args) == 2 and \
+                not e.args[0].args.defaults and not e.args[0].args.vararg and not e.args[0].args.kwonlyargs and not e.args[0].args.kwarg:
+            acc, item = (a.arg for a in e.args[0].args.args)
+            b = strip_cast(e.args[0].body)
+            if isinstance(b, ast.BinOp) and isinstance(b.op, ast.Add):
+                sides = [strip_cast(b.left), strip_cast(b.right)]
+                accs = [isinstance(x, ast.Name) and x.id == acc for x in sides]
+                other = sides[1] if accs[0] else sides[0]
+                onames = {x.id for x in ast.walk(other) if isinstance(x, ast.Name)}
+                if sum(accs) == 1 and item in onames and acc not in onames and self.ev(e.args[2], d + 1) == [_EMPTY]:
+                    vals = self.ev(e.args[1], d + 1)
+                    return vals if accs[0] else [_flip(v) for v in vals]
+            raise _undecided_order(fi, f"`{norm(e)[:60]}`: the folding function is not understood")
+        if c in ("itertools.chain", "chain") and plain and (c != "chain" or fi.module.imports.get("chain") == ("itertools", "chain")):
+            acc = [_EMPTY]
+            for a in e.args:
+                acc = self.product(acc, self.ev(a, d + 1), e)
+            return acc
+        return self.follow(e, d)
+
+    # ---------------------------------------------------------------- helpers that the view could not inline
+    def follow(self, e: ast.Call, d: int) -> list:
+        fi = self.fi
+        if self.depth >= 3:
+            raise _undecided_order(fi, f"`{norm(e)[:60]}`: helpers nested too deeply")
+        try:
+            targets = self.ctx.repo.resolve_call(fi, e)
+        except Exception:  # noqa: BLE001
+            targets = []
+        targets = [t for t in targets if isinstance(t, FuncInfo)]
+        if len(targets) != 1 or not targets[0].module.relpath.startswith("ipv8/attestation/tokentree/") or targets[0].node is getattr(fi, "origin", fi).node:
+            raise _undecided_order(fi, f"`{norm(e)[:60]}` is not understood")
+        h = _view(self.ctx, targets[0])
+        ps = h.params()
+        if ps and ps[0] in ("self", "cls") and isinstance(e.func, ast.Attribute):
+            if chain(e.func.value) not in ("self", "cls"):
+                raise _undecided_order(fi, f"`{norm(e)[:60]}` is called on another object")
+            ps = ps[1:]
+        if any(isinstance(a, ast.Starred) for a in e.args) or any(k.arg is None for k in e.keywords) or len(e.args) > len(ps) or \
+                h.node.args.vararg is not None or h.node.args.kwarg is not None:
+            raise _undecided_order(fi, f"arguments of `{norm(e)[:60]}`")
+        actual = dict(zip(ps, e.args))
+        actual.update({k.arg: k.value for k in e.keywords if k.arg in ps})
+        bind: dict[str, str] = {}
+        seqs: dict[str, list] = {}
+        for p, a in actual.items():
+            bind[p] = self.tok(a)
+            try:
+                seqs[p] = self.ev(a, d + 1)
+            except AnalysisError:
+                pass
+        sub = _OrderEval(self.ctx, h, bind, seqs, self.depth + 1)
+        return sub.result()
+
+    def result(self) -> list:
+        """the sequence this function hands back: what it returns, or - for a generator - what it yields"""
+        fi = self.fi
+        ys = [x for x in _walk_scope(list(fi.node.body)) if isinstance(x, (ast.Yield, ast.YieldFrom))]
+        if ys:
+            return self.accumulated([(y, "append", y.value, isinstance(y, ast.YieldFrom)) for y in ys], [[_EMPTY]], None, "the yielded sequence")
+        out: list = []
+        rets = [r for r in _walk_scope(list(fi.node.body)) if isinstance(r, ast.Return)]
+        if not rets:
+            raise _undecided_order(fi, "no return")
+        for r in rets:
+            if r.value is None or _is_none(r.value):
+                raise _undecided_order(fi, "returns None where a sequence is expected")
+            for v in self.ev(r.value):
+                if v not in out:
+                    out.append(v)
+        return out
+
+    # ---------------------------------------------------------------- names: plain locals and accumulators
+    def name(self, n: ast.Name, d: int) -> list:
+        fi = self.fi
+        nm = n.id
+        defs = local_defs(fi, nm)
+        updates: list = []            # (site, mode, element expression, is-a-sequence)
+        inits: list = []
+        flips: list = []
+        for st, v, k in defs:
+            if isinstance(st, ast.AugAssign) and isinstance(st.target, ast.Name) and st.target.id == nm:
+                if not isinstance(st.op, ast.Add):
+                    raise _undecided_order(fi, f"`{norm(st)[:60]}`")
+                updates.append((st, "append", st.value, True))
+            elif v is not None and k is None and isinstance(st, (ast.Assign, ast.AnnAssign)) and nm in {x.id for x in ast.walk(v) if isinstance(x, ast.Name)}:
+                b = strip_cast(v)
+                if isinstance(b, ast.BinOp) and isinstance(b.op, ast.Add) and isinstance(strip_cast(b.left), ast.Name) and strip_cast(b.left).id == nm and \
+                        nm not in {x.id for x in ast.walk(b.right) if isinstance(x, ast.Name)}:
+                    updates.append((st, "append", b.right, True))
+                elif isinstance(b, ast.BinOp) and isinstance(b.op, ast.Add) and isinstance(strip_cast(b.right), ast.Name) and strip_cast(b.right).id == nm and \
+                        nm not in {x.id for x in ast.walk(b.left) if isinstance(x, ast.Name)}:
+                    updates.append((st, "prepend", b.left, True))
+                elif isinstance(b, ast.Call) and isinstance(b.func, ast.Attribute) and b.func.attr == "join" and isinstance(strip_cast(b.func.value), ast.Constant) and \
+                        strip_cast(b.func.value).value in (b"", "") and len(b.args) == 1 and not b.keywords and isinstance(b.args[0], (ast.Tuple, ast.List)) and \
+                        len(b.args[0].elts) == 2 and sum(1 for x in b.args[0].elts if isinstance(strip_cast(x), ast.Name) and strip_cast(x).id == nm) == 1 and \
+                        sum(1 for x in ast.walk(b) if isinstance(x, ast.Name) and x.id == nm) == 1:
+                    first = isinstance(strip_cast(b.args[0].elts[0]), ast.Name) and strip_cast(b.args[0].elts[0]).id == nm
+                    updates.append((st, "append" if first else "prepend", b.args[0].elts[1 if first else 0], True))
+                else:
+                    raise _undecided_order(fi, f"`{norm(st)[:60]}` rebuilds the sequence it extends")
+            elif v is not None and k is None and isinstance(st, (ast.Assign, ast.AnnAssign)):
+                inits.append((st, v))
+            elif v is not None and k is None and not isinstance(st, (ast.For, ast.AsyncFor, ast.With, ast.AsyncWith, ast.AugAssign)):
+                inits.append((st, v))                  # walrus
+            else:
+                raise _undecided_order(fi, f"`{nm}` is bound by `{head_text(st)}`")
+        for x in _walk_scope(list(fi.node.body)):
+            if not (isinstance(x, ast.Name) and x.id == nm and isinstance(x.ctx, ast.Load)):
+                if isinstance(x, ast.Name) and x.id == nm and isinstance(x.ctx, ast.Del):
+                    raise _undecided_order(fi, f"`{nm}` is deleted")
+                continue
+            p = parent(x)
+            if isinstance(p, ast.Attribute) and p.value is x:
+                cl = parent(p)
+                if not (isinstance(cl, ast.Call) and cl.func is p):
+                    raise _undecided_order(fi, f"`{norm(p)[:40]}` is read")
+                a = p.attr
+                plain = not cl.keywords and not any(isinstance(y, ast.Starred) for y in cl.args)
+                if a in ("append", "appendleft") and len(cl.args) == 1 and plain:
+                    updates.append((cl, "append" if a == "append" else "prepend", cl.args[0], False))
+                elif a == "insert" and len(cl.args) == 2 and plain and const_value(cl.args[0]) == 0:
+                    updates.append((cl, "prepend", cl.args[1], False))
+                elif a in ("extend", "write") and len(cl.args) == 1 and plain:
+                    updates.append((cl, "append", cl.args[0], True))
+                elif a == "getvalue" and not cl.args and plain:
+                    continue
+                elif a == "reverse" and not cl.args and plain:
+                    flips.append(cl)
+                elif a in ("copy", "count", "index", "__len__", "hex", "join"):
+                    continue
+                else:
+                    raise _undecided_order(fi, f"`{norm(cl)[:60]}` changes the sequence in a way that is not understood")
+            elif isinstance(p, ast.Subscript) and p.value is x and isinstance(p.ctx, ast.Store) and isinstance(p.slice, ast.Slice) and p.slice.step is None and \
+                    (p.slice.lower is None or const_value(p.slice.lower) == 0) and p.slice.upper is not None and const_value(p.slice.upper) == 0 and \
+                    isinstance(parent(p), ast.Assign) and len(parent(p).targets) == 1:
+                updates.append((parent(p), "prepend", parent(p).value, True))          # seq[:0] = chunk
+            elif isinstance(p, ast.Subscript) and p.value is x and isinstance(p.ctx, (ast.Store, ast.Del)):
+                raise _undecided_order(fi, f"`{norm(enclosing_stmt(p))[:60]}` writes into the sequence")
+            elif isinstance(p, ast.Call) and any(y is x for y in p.args):
+                pc = chain(p.func) or ""
+                if not (pc in _SEQ_READERS or (isinstance(p.func, ast.Attribute) and p.func.attr == "join")):
+                    raise _undecided_order(fi, f"`{norm(p)[:60]}` may change the sequence `{nm}`")
+        # what cannot reach this read does not influence it (e.g. the accumulator of another branch that has returned already)
+        here = self.cfg.nodes_for(n)
+        if here and (updates or flips):
+            def reaches(x: ast.AST) -> bool:
+                ns = self.cfg.nodes_for(x)
+                return not ns or any(h in self.cfg.reach(ns) for h in here)
+            updates = [u for u in updates if reaches(u[0])]
+            inits = [i for i in inits if reaches(i[0])]
+            flips = [f_ for f_ in flips if reaches(f_)]
+            if not updates and not flips and len(inits) != len(defs):
+                out = []
+                for st, v in inits:
+                    for val in self.ev(v, d + 1):
+                        if val not in out:
+                            out.append(val)
+                if not out:
+                    raise _undecided_order(fi, f"no definition of `{nm}` reaches `{norm(enclosing_stmt(n))[:50]}`")
+                return out
+        if not updates and not flips:
+            if not defs:
+                if nm in self.seqs:
+                    return self.seqs[nm]
+                raise _undecided_order(fi, f"`{nm}` is not a local sequence")
+            r = _reaching(fi, n)
+            if r is None:
+                if len(defs) == 1 and isinstance(defs[0][0], ast.While) and defs[0][1] is not None:
+                    return self.ev(defs[0][1], d + 1)
+                raise _undecided_order(fi, f"the definitions of `{nm}` that reach `{norm(enclosing_stmt(n))[:50]}`")
+            out: list = []
+            for st, v, k in r:
+                if v is None or k is not None:
+                    raise _undecided_order(fi, f"`{nm}` is bound by `{head_text(st)}`")
+                for val in self.ev(v, d + 1):
+                    if val not in out:
+                        out.append(val)
+            return out
+        if not inits and nm in self.seqs and not local_defs(fi, nm):
+            init_vals = [self.seqs[nm]]
+        else:
+            init_vals = [self.ev(v, d + 1) for st, v in inits]
+        vals = self.accumulated(updates, init_vals, [st for st, v in inits], f"`{nm}`")
+        if flips:
+            # in-place reversal: understood when every path to this read passes each reversal (outside any loop: exactly once)
+            site = self.cfg.nodes_for(n)
+            for fl in flips:
+                fn_ = self.cfg.nodes_for(fl)
+                if _innermost_loop(fl, fi.node) is not None or not site or not fn_ or any(s in self.cfg.reach(cut_nodes=fn_) for s in site) or \
+                        any(u in self.cfg.reach([w for x in fn_ for w, lab in x.succ if lab != "exc"]) for st, m_, el, sq in updates for u in self.cfg.nodes_for(st)):
+                    raise _undecided_order(fi, f"`{norm(fl)}` is not executed exactly once between the last extension and the read of `{nm}`")
+            if len(flips) % 2:
+                vals = [_flip(v) for v in vals]
+        return vals
+
+    def accumulated(self, updates: list, init_vals: list, init_stmts: list | None, what: str) -> list:
+        """value of a sequence that starts as one of init_vals and is extended by `updates` = (site, mode, element, is-sequence), all in ONE loop"""
+        fi, cfg = self.fi, self.cfg
+        if not updates:
+            raise _undecided_order(fi, f"{what} is never extended")
+        inloop = [(u, _innermost_loop(u[0], fi.node)) for u in updates]
+        pre = [u for u, l in inloop if l is None]
+        loops = {id(l): l for u, l in inloop if l is not None}
+        if len(loops) > 1:
+            raise _undecided_order(fi, f"{what} is extended in more than one loop")
+        loop = next(iter(loops.values()), None)
+        lnodes = cfg.nodes_for(loop) if loop is not None else []
+        after = cfg.reach(lnodes) if lnodes else set()
+        starts: list = []
+        for vs in init_vals:
+            for v in vs:
+                if v not in starts:
+                    starts.append(v)
+        if not starts:
+            raise _undecided_order(fi, f"{what} has no start value")
+        for st in init_stmts or []:
+            if any(x in after for x in cfg.nodes_for(st)) or _innermost_loop(st, fi.node) is not None:
+                raise _undecided_order(fi, f"{what} is re-initialised in or after its loop")
+        # extensions outside the loop: understood when they are straight-line code in front of the loop (same block, executed once, in order)
+        anchor_st = loop if loop is not None else None
+        blocks = set()
+        for u in pre:
+            st = enclosing_stmt(u[0])
+            if any(x in after for x in cfg.nodes_for(u[0])):
+                raise _undecided_order(fi, f"`{norm(u[0])[:50]}` extends {what} after its loop")
+            blk = _block_of(st)
+            blocks.add(id(blk))
+            if blk is None or (anchor_st is not None and _block_of(anchor_st) is not blk) or len(blocks) > 1 or \
+                    (init_stmts and any(_block_of(i) is not blk for i in init_stmts)):
+                raise _undecided_order(fi, f"`{norm(u[0])[:50]}` extends {what} conditionally")
+        pre.sort(key=lambda u: next((i for i, x in enumerate(_block_of(enclosing_stmt(u[0]))) if x is enclosing_stmt(u[0])), 0))
+        for u in pre:
+            part = self.ev(u[2]) if u[3] else [("one", self.tok(self.elem(u[2])))]
+            starts = self.product(starts, part, u[0]) if u[1] == "append" else self.product(part, starts, u[0])
+        if loop is None:
+            return starts
+        body = [u for u, l in inloop if l is loop]
+        modes = {u[1] for u in body}
+        if len(modes) != 1 or len(body) != 1:
+            raise _undecided_order(fi, f"{what} is extended at {len(body)} places of its loop")
+        site, mode, el, is_seq = body[0]
+        if is_seq:
+            el0 = strip_cast(el)
+            if isinstance(el0, (ast.List, ast.Tuple)) and len(el0.elts) == 1 and not isinstance(el0.elts[0], ast.Starred):
+                el = el0.elts[0]
+            elif isinstance(el0, (ast.List, ast.Tuple, ast.Name)) and not (isinstance(el0, ast.Name)):
+                raise _undecided_order(fi, f"`{norm(site)[:50]}` adds several elements at once")
+        etok = self.elem(el)
+        out: list = []
+        if isinstance(loop, ast.While):
+            cur, base = self.walk(loop, [site])
+            if not (isinstance(etok, ast.Name) and etok.id == cur):
+                raise _undecided_order(fi, f"`{norm(site)[:50]}` does not emit the token the walk just looked up")
+            order = "CF" if mode == "append" else "PF"
+            for s in starts:
+                if s[0] == "empty":
+                    v = ("chain", order, base, False)
+                elif s[0] == "one" and s[1] == base:
+                    v = ("chain", order, base, True)
+                else:
+                    raise _undecided_order(fi, f"{what} starts as {s} and is extended by the ancestors of {base}")
+                if v not in out:
+                    out.append(v)
+            return out
+        its = self.ev(loop.iter)
+        tnames = {x.id for x in ast.walk(loop.target) if isinstance(x, ast.Name)}
+        if not tnames & {x.id for x in ast.walk(el) if isinstance(x, ast.Name)}:
+            raise _undecided_order(fi, f"`{norm(site)[:50]}` does not emit the element its loop iterates")
+        for s in starts:
+            for it in its:
+                v = it if mode == "append" else _flip(it)
+                if s[0] != "empty":
+                    v = self.concat(s, v, site) if mode == "append" else self.concat(v, s, site)
+                if v not in out:
+                    out.append(v)
+        return out
+
+    def walk(self, loop: ast.While, sites: list) -> tuple[str, str]:
+        """
+        (cur, B) when `loop` walks from token B towards the root: its one lookup `cur = self.elements[k]` / `.get(k)` is keyed by the
+        previous-pointer of B before the first iteration and by the previous-pointer of the token looked up last afterwards, and every
+        given site (an emission) and the advance of the key see the token looked up in the same iteration.
+        """
+        fi, cfg = self.fi, self.cfg
+        found = []
+        for x in _walk_scope([loop.test, *loop.body]):
+            if isinstance(x, ast.Subscript) and isinstance(x.ctx, ast.Load) and chain(_expand(fi, x.value)) == "self.elements" and not isinstance(x.slice, ast.Slice):
+                found.append((x, x.slice))
+            elif isinstance(x, ast.Call) and isinstance(x.func, ast.Attribute) and x.func.attr == "get" and 1 <= len(x.args) <= 2 and not x.keywords and \
+                    chain(_expand(fi, x.func.value)) == "self.elements":
+                found.append((x, x.args[0]))
+        found = [(x, k) for x, k in found if _innermost_loop(x, fi.node) is loop]
+        if len(found) != 1:
+            raise _undecided_order(fi, f"{len(found)} lookups in self.elements in the loop `{head_text(loop)}`")
+        look, k = found[0]
+        p = parent(look)
+        cur = None
+        if isinstance(p, ast.NamedExpr) and p.value is look:
+            cur = p.target.id
+        elif isinstance(p, ast.Assign) and p.value is look and len(p.targets) == 1 and isinstance(p.targets[0], ast.Name):
+            cur = p.targets[0].id
+        elif isinstance(p, ast.AnnAssign) and p.value is look and isinstance(p.target, ast.Name):
+            cur = p.target.id
+        if cur is None:
+            raise _undecided_order(fi, f"the token looked up by `{norm(look)[:50]}` is not bound to a name")
+        bnodes = cfg.nodes_for(look)
+        lnodes = cfg.nodes_for(loop)
+        if not bnodes or not lnodes:
+            raise _undecided_order(fi, "walk loop not found in the control-flow graph")
+        stale = cfg.reach(lnodes, cut_nodes=bnodes)          # reached from the loop head without a new lookup
+        after = cfg.reach(lnodes)
+
+        def in_loop(st: ast.AST) -> bool:
+            return st is loop or _inside(st, loop)
+
+        def fresh(node: ast.AST) -> bool:
+            ns = cfg.nodes_for(node)
+            return bool(ns) and not any(x in stale for x in ns if x not in bnodes)
+        cur_defs = local_defs(fi, cur)
+        if [d for d in cur_defs if in_loop(d[0]) and d[1] is not look]:
+            raise _undecided_order(fi, f"`{cur}` is rebound inside the walk")
+        k = strip_cast(k)
+        bases: set[str] = set()
+        if isinstance(k, ast.Attribute) and k.attr == "previous_token_hash" and isinstance(k.value, ast.Name):
+            if k.value.id != cur:
+                raise _undecided_order(fi, f"the walk is keyed by `{norm(k)}` but looks up `{cur}`")
+            outer = [d for d in cur_defs if not in_loop(d[0])]
+            if not outer:
+                if not is_param(fi, cur):
+                    raise _undecided_order(fi, f"`{cur}` has no value before the walk")
+                bases.add(self.bind.get(cur, cur))
+            for st, v, idx in outer:
+                if v is None or idx is not None or any(x in after for x in cfg.nodes_for(st)):
+                    raise _undecided_order(fi, f"`{head_text(st)}` rebinds the cursor of the walk")
+                bases.add(self.tok(v))
+        elif isinstance(k, ast.Name) and not is_param(fi, k.id):
+            kd = local_defs(fi, k.id)
+            if not [d for d in kd if not in_loop(d[0])] or not [d for d in kd if in_loop(d[0])]:
+                raise _undecided_order(fi, f"the key `{k.id}` of the walk is not advanced / not initialised")
+            for st, v, idx in kd:
+                v = strip_cast(v) if v is not None else None
+                if not (isinstance(v, ast.Attribute) and v.attr == "previous_token_hash") or idx is not None:
+                    raise _undecided_order(fi, f"`{head_text(st)}` does not advance the walk to a previous-pointer")
+                if in_loop(st):
+                    if not (isinstance(v.value, ast.Name) and v.value.id == cur and fresh(st)):
+                        raise _undecided_order(fi, f"`{head_text(st)}` does not advance from the token looked up in the same iteration")
+                else:
+                    if any(x in after for x in cfg.nodes_for(st)):
+                        raise _undecided_order(fi, f"`{head_text(st)}` re-initialises the key of the walk")
+                    x = strip_cast(v.value)
+                    if isinstance(x, ast.Name) and len([d for d in local_defs(fi, x.id) if not in_loop(d[0])]) + (1 if is_param(fi, x.id) else 0) != 1:
+                        raise _undecided_order(fi, f"the start token `{x.id}` of the walk has several definitions")
+                    bases.add(self.tok(x))
+        else:
+            raise _undecided_order(fi, f"key `{norm(k)[:40]}` of the walk")
+        if len(bases) != 1:
+            raise _undecided_order(fi, f"the walk starts from {sorted(bases)}")
+        for s in sites:
+            if not fresh(s):
+                raise _undecided_order(fi, f"`{norm(s)[:50]}` can run before the lookup of its iteration")
+        return cur, next(iter(bases))
+
+
+def _block_of(st: ast.AST) -> list | None:
+    """the statement list that holds st"""
+    p = parent(st)
+    if p is None:
+        return None
+    for f in ("body", "orelse", "finalbody"):
+        lst = getattr(p, f, None)
+        if isinstance(lst, list) and any(x is st for x in lst):
+            return lst
+    return None
+
+
+def head_text(st: ast.AST) -> str:
+    from ..model import head
+    return head(st)[:60]
+
+
+def rule_dump_order(ctx: Ctx) -> None:
+    """serialize_public emits a token's parent before the token on every returning path"""
+    sp = _view(ctx, ctx.repo.method("TokenTree", "serialize_public", TR))
+    rets = [r for r in _walk_scope(list(sp.node.body)) if isinstance(r, ast.Return)]
+    ctx.anchor(rets, "return in TokenTree.serialize_public")
+    if any(isinstance(x, (ast.Yield, ast.YieldFrom)) for x in _walk_scope(list(sp.node.body))):
+        raise AnalysisError("undecided: TokenTree.serialize_public is a generator")
+    ev = _OrderEval(ctx, sp)
+    for r in rets:
+        if r.value is None:
+            raise AnalysisError("undecided: TokenTree.serialize_public returns nothing on one path")
+        vals = ev.ev(r.value)
+        bad = [v for v in vals if (v[0] in ("chain", "stored") and v[1] == "CF") or v[0] == "mixed"]
+
+        def say(v: tuple) -> str:
+            if v[0] == "stored":
+                return "every stored token in reverse insertion order (children before their parents)"
+            if v[0] == "chain":
+                return f"token {v[2]} first and then its ancestors towards the root (tip first)"
+            return v[1]
+        shown = ", ".join(v[0] + (":" + v[1] if v[0] in ("chain", "stored") else "") for v in vals)
+        ctx.check(not bad, "dump-order", sp, r, f"`{norm(r)[:50]}` emits parents before their children ({shown})",
+                  "TokenTree.serialize_public emits " + "; ".join(say(v) for v in bad) + ": a fresh tree that reloads the dump has to park every token until the "
+                  "root-most one arrives, and the bounded waiting area (unchained_max_size, oldest evicted) loses the tokens parked first - a public "
+                  "serialisation of more than unchained_max_size + 1 tokens no longer reloads to the same tree")
+
+
 def run(ctx: Ctx) -> None:
     normalised = ctx.repo
     ctx.repo = _raw_repo(ctx.repo)          # the source as written; the views do their own (exact) inlining
@@ -4339,6 +5282,7 @@ def run(ctx: Ctx) -> None:
         rule_wake_all(ctx)
         rule_content(ctx)
         rule_wire(ctx)
+        rule_dump_order(ctx)
     finally:
         ctx.repo = normalised
     ctx.assume("order independence follows from: acceptance of a token depends only on (signature, parent contained); every waiting child is woken when its parent arrives; "
@@ -4425,6 +5369,14 @@ WITNESSES = [
     {"name": "wake-up selects the waiting tokens that are NOT children of the appended token", "file": TR, "rule": "wake-all",
      "old": "                        if lost_token.previous_token_hash == token.get_hash()]",
      "new": "                        if lost_token.previous_token_hash != token.get_hash()]"},
+    {"name": "pre-fix: partial dump emits the chain tip first (appends while walking back to the root)", "file": TR, "rule": "dump-order",
+     "old": "                out = token.get_plaintext_signed() + out\n",
+     "new": "                out += token.get_plaintext_signed()\n"},
+    {"name": "full dump emits the stored tokens newest first", "file": TR, "rule": "dump-order",
+     "old": "        return b\"\".join(token.get_plaintext_signed() for token in self.elements.values())",
+     "new": "        return b\"\".join(token.get_plaintext_signed() for token in reversed(self.elements.values()))"},
+    {"name": "verify answers True when the walk ran out of its step budget", "file": TR, "rule": "wire-chunks",
+     "old": "        return steps < maxdepth\n", "new": "        return steps <= maxdepth\n"},
     {"name": "walk verifies only every other token", "file": TR, "rule": "wire-chunks",
      "old": "            current = self.elements[current.previous_token_hash]\n            steps += 1\n        return steps < maxdepth",
      "new": "            current = self.elements[current.previous_token_hash]\n            if current.previous_token_hash in self.elements:\n"
